@@ -827,6 +827,15 @@ def glue_greenlet() -> None:
                     and outer_frame.f_back is not None
                 ):
                     outer_frame = outer_frame.f_back
+        elif sys.implementation.name == "cpython":
+            # Suspended. On CPython its stack ends where the f_back chain
+            # does. Say so explicitly: if we're being asked by one of its
+            # descendants, the running stack (which StackSlice follows through
+            # greenlet parents) continues outward into this greenlet's own
+            # ancestors, which aren't part of its stack.
+            outer_frame = inner_frame
+            while outer_frame.f_back is not None:
+                outer_frame = outer_frame.f_back
         return StackSlice(outer=outer_frame, inner=inner_frame)
 
     if sys.implementation.name != "pypy":
